@@ -3,6 +3,7 @@ import ast
 
 from ..model import (AnalysisError, FUNC_TYPES, U, call_attr, call_name, dotted, enclosing, enclosing_function, guard_texts, guards_ex,
                      short, walk_body, walk_local, ancestors, parent, const_str, kwarg, literal)
+from .. import feat
 from ..util import params, find_calls, assigns_to, trace, stmt_of, has_exit, syn_dominates
 from ..cfg import CFG, ENTRY, EXIT
 
@@ -57,41 +58,49 @@ def r1_exclusion(cx):
     dels = [d for d in walk_body(lp.body) if isinstance(d, ast.Delete)]
     if not dels:
         cx.bad(lp, "excluded elements are deleted from the copy", construct="(no del)")
-    for d in dels:
+
+    def _shape(d):
         t = d.targets[0]
-        depth = 0
-        node = t
-        subs = []
+        depth, subs, node = 0, [], t
         while isinstance(node, ast.Subscript):
             depth += 1
             subs.append(U(node.slice))
             node = node.value
-        base = U(node)
-        g = set(guard_texts(d, stop=lp))
-        ok = depth in (1, 2) and _len_values(g, "len(elements)") == set([depth]) and ("elements[0] in PLAYBOOK_DYNAMIC_LABELS", True) in g and base == "result" \
-            and list(reversed(subs)) == ["elements[%d]" % i for i in range(depth)]
-        cx.require(ok, d, "a deletion at depth %d is guarded by len(elements) == %d and elements[0] in PLAYBOOK_DYNAMIC_LABELS, on the copy" % (depth, depth),
-                   construct="%s guarded by %s" % (short(d), sorted(g)))
+        return depth, list(reversed(subs)), U(node)
+    for d in dels:
+        depth, subs, base = _shape(d)
+        ok = depth in (1, 2) and base == "result" and subs == ["elements[%d]" % i for i in range(depth)]
+        cx.require(ok, d, "a deletion removes result[elements[0]] or result[elements[0]][elements[1]] of the copy", construct=short(d))
         tr = enclosing(d, ast.Try)
-        ok = tr is not None and all(any(isinstance(s, ast.Raise) and "PlaybookVerificationError" in U(s.exc) for s in h.body) for h in tr.handlers) and bool(tr.handlers)
+        ok = tr is not None and all(any(isinstance(s_, ast.Raise) and "PlaybookVerificationError" in U(s_.exc) for s_ in h.body) for h in tr.handlers) and bool(tr.handlers)
         cx.require(ok, d, "a deletion that fails (missing element) raises PlaybookVerificationError", construct="try: %s except: raise PlaybookVerificationError" % short(d))
     pops = [x for x in find_calls(lp.body, attr="pop") if U(x.func.value).startswith("result")]
     for x in pops:
         cx.bad(x, "elements are removed with 'del' inside try/except so that a missing element raises (pop with a default hides it)", construct=short(x))
-    def _chain(t):
-        k = 0
-        while isinstance(t, ast.Subscript):
-            k += 1
-            t = t.value
-        return k
-    depths = sorted(set(_chain(d.targets[0]) for d in dels))
-    cx.require(depths == [1, 2], lp, "there is one deletion site for depth 1 and one for depth 2 (nothing deeper, nothing else)", construct="deletion depths: %s" % depths)
-    last = lp.body[-1]
-    cx.require(isinstance(last, ast.Raise) and "PlaybookVerificationError" in U(last.exc), last, "any other exclusion request falls through to an error", construct=short(last, 90))
-    # each accepted branch ends with continue (so the fall-through error is reached only by unaccepted requests)
-    for s in lp.body:
-        if isinstance(s, ast.If):
-            cx.require(isinstance(s.body[-1], ast.Continue), s, "an accepted request continues with the next one", construct="if %s: ... continue" % short(s.test, 80))
+    # path rule over the loop body: a request is accepted (the body ends without raising) only on a path that performed exactly one deletion whose
+    # depth equals the number of path elements and whose first element is a dynamic label; every other path raises
+    try:
+        ps_ = feat.paths(lp.body)
+    except ValueError:
+        cx.unknown(lp, "too many paths through the exclusion loop")
+        ps_ = []
+    accepted = 0
+    for trail, end in ps_:
+        if end == "raise":
+            continue
+        conds = set((e[1], e[2]) for e in trail if e[0] == "cond")
+        done = [e[1] for e in trail if e[0] == "stmt" and isinstance(e[1], ast.Delete)]
+        if any(c[0].startswith("except") for c in conds):
+            cx.bad(lp, "a failing deletion never ends a path normally", construct="path through an except arm ends with '%s'" % end)
+            continue
+        accepted += 1
+        ok = len(done) == 1
+        if ok:
+            depth = _shape(done[0])[0]
+            ok = _len_values(conds, "len(elements)") == set([depth]) and ("elements[0] in PLAYBOOK_DYNAMIC_LABELS", True) in conds
+        cx.require(ok, done[0] if done else lp, "an accepted exclusion request performed exactly the deletion of its own depth under a dynamic label (anything else is an error)",
+                   construct="path %s -> %s" % (sorted(conds), [short(x) for x in done]))
+    cx.require(accepted >= 2, lp, "both request shapes (label, label/child) have an accepting path", construct="%d accepting paths" % accepted)
     cp = [a for a in fn.body if isinstance(a, ast.Assign) and U(a.targets[0]) == "result"]
     ok = len(cp) == 1 and U(cp[0].value) == "copy.deepcopy(%s)" % play and syn_dominates(cp[0], lp)
     cx.require(ok, cp[0] if cp else fn, "deletions apply to a deep copy of the play", construct=short(cp[0]) if cp else "(none)")
@@ -148,9 +157,26 @@ def r2_digest_input(cx):
     sf = m.func("serialize_play", "C18.R2")
     sp0 = params(sf)[0]
     rets = [r for r in walk_body(sf.body) if isinstance(r, ast.Return)]
-    ok = all(sp0 in [n.id for n in ast.walk(r.value) if isinstance(n, ast.Name)] and call_attr(r.value) == "encode" for r in rets) and bool(rets)
-    ok = ok and U(rets[-1].value) == "PlaybookSerializer.serialize(%s).encode('utf-8')" % sp0
-    cx.require(ok, sf, "every serialisation branch serialises the whole play", construct=" | ".join(U(r.value) for r in rets))
+    forms = []          # text of every value that can be encoded and returned
+    ok = bool(rets)
+    for r in rets:
+        v = r.value
+        if not (isinstance(v, ast.Call) and call_attr(v) == "encode" and [const_str(a) for a in v.args] == ["utf-8"] and not v.keywords):
+            ok = False
+            continue
+        inner = v.func.value
+        if isinstance(inner, ast.Name) and inner.id != sp0:
+            cs = feat.value_cases(sf, inner.id, before=r)
+            if cs is None:
+                # plain if/elif/else chain of assignments: take every assigned value
+                cs = set((frozenset(), U(a.value)) for a in assigns_to(sf, inner.id))
+            forms.extend(t for g_, t in cs)
+            ok = ok and bool(cs)
+        else:
+            forms.append(U(inner))
+    allowed_forms = set(["str(normalize_play_py2(%s))" % sp0, "str(%s)" % sp0, "PlaybookSerializer.serialize(%s)" % sp0])
+    ok = ok and set(forms) <= allowed_forms and "PlaybookSerializer.serialize(%s)" % sp0 in forms
+    cx.require(ok, sf, "every serialisation branch serialises the whole play", construct=" | ".join(forms))
 
 
 def r3_checks_dominate(cx):
@@ -268,6 +294,22 @@ def r4_escaping(cx):
     cx.require(ok, ob, "strings are dispatched to _str", construct="return cls._str(value) under isinstance(value, six.string_types)")
     sf = m.func("PlaybookSerializer._str", "C18.R4")
     tb = [a for a in walk_body(sf.body) if isinstance(a, ast.Assign) and U(a.targets[0]) == "special_chars" and isinstance(a.value, ast.Dict)]
+    tbl_ref = "special_chars"
+    if not tb:
+        # table hoisted to a class attribute / module constant and read through cls / self / the module
+        for n in ast.walk(sf):
+            if isinstance(n, ast.Call) and call_attr(n) == "get" and len(n.args) == 2 and U(n.args[0]) == U(n.args[1]):
+                ref = n.func.value
+                nm = ref.attr if isinstance(ref, ast.Attribute) and U(ref.value) in ("cls", "self", "PlaybookSerializer") else ref.id if isinstance(ref, ast.Name) else None
+                if nm is None:
+                    continue
+                cls_ = m.cls("PlaybookSerializer", "C18.R4")
+                cand = [a for a in cls_.body if isinstance(a, ast.Assign) and U(a.targets[0]) == nm and isinstance(a.value, ast.Dict)] or \
+                    ([ast.Assign(targets=[ast.Name(id=nm)], value=m.top.get(nm))] if isinstance(m.top.get(nm), ast.Dict) else [])
+                writes = [x for x in ast.walk(m.tree) if isinstance(x, (ast.Subscript, ast.Attribute)) and isinstance(getattr(x, "ctx", None), (ast.Store, ast.Del)) and nm in U(x)]
+                if cand and not writes:
+                    tb = cand[:1]
+                    tbl_ref = U(ref)
     ok = False
     if tb:
         try:
@@ -278,13 +320,13 @@ def r4_escaping(cx):
     cx.require(ok, tb[0] if tb else sf, "the escape table maps backslash, newline and tab to their escaped forms (escaping the escape character keeps the encoding unambiguous)",
                construct="special_chars: '\\\\' -> '\\\\\\\\', '\\n' -> '\\\\n', '\\t' -> '\\\\t'")
     lp = [s for s in sf.body if isinstance(s, ast.For)]
-    ok = bool(lp) and U(lp[0].iter) == params(sf)[1] and len(lp[0].body) == 1 and U(lp[0].body[0]) == "escaped_string += special_chars.get(char, char)"
+    ok = bool(lp) and U(lp[0].iter) == params(sf)[1] and len(lp[0].body) == 1 and U(lp[0].body[0]) == "escaped_string += %s.get(char, char)" % tbl_ref
     if not lp:
         v0 = params(sf)[1]
         for j in find_calls(sf.body, attr="join"):
             a = j.args[0] if j.args else None
             if isinstance(a, (ast.GeneratorExp, ast.ListComp)) and len(a.generators) == 1 and not a.generators[0].ifs and U(a.generators[0].iter) == v0 \
-                    and U(a.elt) == "special_chars.get({0}, {0})".format(U(a.generators[0].target)) and const_str(j.func.value) == "" and not guard_texts(j):
+                    and U(a.elt) == "%s.get({0}, {0})".format(U(a.generators[0].target)) % tbl_ref and const_str(j.func.value) == "" and not guard_texts(j):
                 ok = True
                 lp = [j]
     cx.require(ok, lp[0] if lp else sf, "every character of the value goes through the table", construct=short(lp[0]) if lp else "(none)")
